@@ -68,7 +68,24 @@ fn own_inodes(dir: &Path) -> std::collections::BTreeSet<u64> {
 }
 
 /// (mode of a FLOCK this process holds on `ino`, number of FLOCKs this process holds on `own` inodes)
+/// /proc/locks is a seq_file over the kernel's global lock list: ONE read is not an atomic snapshot and
+/// can miss an entry while other processes on the machine take and drop locks (observed under load:
+/// a held flock reported absent).  Locks of the observed process only change between harness ops, so
+/// the lock exists iff some read lists it: an absent lock is re-read a few times before it is believed.
 fn proc_locks(ino: u64, own: &std::collections::BTreeSet<u64>) -> (&'static str, usize) {
+    let mut best = proc_locks_once(ino, own);
+    let mut tries = 0;
+    while (best.0 == "no" || best.1 == 0) && tries < 6 {
+        std::thread::sleep(std::time::Duration::from_millis(15));
+        let again = proc_locks_once(ino, own);
+        if best.0 == "no" { best.0 = again.0; }
+        best.1 = best.1.max(again.1);
+        tries += 1;
+    }
+    best
+}
+
+fn proc_locks_once(ino: u64, own: &std::collections::BTreeSet<u64>) -> (&'static str, usize) {
     let pid = std::process::id().to_string();
     let txt = std::fs::read_to_string("/proc/locks").unwrap_or_default();
     let mut held = "no";
